@@ -314,6 +314,48 @@ def grouped_cases(ctx, rng, scale, failures, dist):
                     failures.append({'key': f'{kind}:{p.split(":")[0]}', 'what': f'{kind} groups={g}: {p}', 'case': dict(kind=kind, groups=g)})
             except Exception as ex:
                 failures.append({'key': f'{kind}:exception:{type(ex).__name__}', 'what': f'{kind} groups={g}: {ex!r}', 'case': dict(kind=kind, groups=g)})
+    # grouped quantizers on CHANNEL-FIRST inputs (accept_image_fmap=True; round 10, seed C06-j): the input is split into groups on axis 1 and the per-group
+    # outputs are concatenated on axis 1 again - output shape = input shape, chunk g = the independent residual quantizer on chunk g
+    for ci in range((8 if not ctx.thorough else 40) * scale):
+        g = [2, 3, 1, 4][ci % 4]
+        for kind in ('grvq', 'grfsq', 'grlfq'):
+            try:
+                if kind == 'grvq':
+                    dg = 2
+                    q = GroupedResidualVQ(dim=dg * g, groups=g, num_quantizers=2, codebook_size=5, accept_image_fmap=True)
+                elif kind == 'grfsq':
+                    dg = 2
+                    q = GroupedResidualFSQ(dim=dg * g, groups=g, levels=[3, 4], num_quantizers=2, accept_image_fmap=True)
+                else:
+                    dg = 3
+                    q = GroupedResidualLFQ(dim=dg * g, groups=g, codebook_size=8, num_quantizers=2, accept_image_fmap=True)
+                q.eval()
+                x = torch.randn(2, dg * g, 3, 4) if ci % 3 != 2 else torch.randn(2, dg * g, 2, 3, 2)
+                try:
+                    with torch.no_grad():
+                        ret = q(x)
+                except Exception:
+                    dist['grouped_channel_first_rejected'] = dist.get('grouped_channel_first_rejected', 0) + 1
+                    continue        # a class that does not take this layout says so loudly
+                out, idx = ret[0], ret[1]
+                problems = []
+                if tuple(out.shape) != tuple(x.shape):
+                    problems.append(f'output shape {tuple(out.shape)} != input shape {tuple(x.shape)}')
+                else:
+                    with torch.no_grad():
+                        for gi, sub in enumerate(q.rvqs):
+                            sub.eval()
+                            r = sub(x[:, gi * dg:(gi + 1) * dg])
+                            if tuple(r[0].shape) != tuple(out[:, gi * dg:(gi + 1) * dg].shape) or not torch.equal(r[0], out[:, gi * dg:(gi + 1) * dg]):
+                                problems.append(f'group {gi}: output chunk (axis 1) differs from the independent residual quantizer on that chunk')
+                            if tuple(r[1].shape) != tuple(idx[gi].shape) or not torch.equal(r[1], idx[gi]):
+                                problems.append(f'group {gi}: indices differ from the independent residual quantizer on that chunk')
+                ev += 1
+                dist['grouped_channel_first'] = dist.get('grouped_channel_first', 0) + 1
+                for p in problems:
+                    failures.append({'key': f'{kind}:channel-first:{p.split(":")[0].split(" (")[0][:40]}', 'what': f'{kind} groups={g} accept_image_fmap=True input {tuple(x.shape)}: {p}', 'case': dict(kind=kind, groups=g, image=True)})
+            except Exception as ex:
+                failures.append({'key': f'{kind}:channel-first:exception:{type(ex).__name__}', 'what': f'{kind} groups={g}: {ex!r}', 'case': dict(kind=kind, groups=g, image=True)})
     return ev
 
 
